@@ -13,6 +13,7 @@
                       or key wraps at 65 536 and the reader then slices the wrong bytes).
  J7 MASK-FITS         a value masked into the 24 payload bits of an entry word (`x & OFFSET_MASK`) must be compared with the
                       payload limit first: a data offset or inline value of 2^24 or more is stored modulo 2^24.
+ J8 NO-BYTE-AS-CHAR   in the JSON parser / JSONB module a `u8 as char` reaches String::push only under an ASCII test of that byte.
 Equality of parsed values (numbers, escapes, duplicate keys) is NOT decided.
 """
 from model import CheckError, operand_place
@@ -168,6 +169,59 @@ def run(ctx):
                            "`%s & OFFSET_MASK` without a bound: a value of 2^24 or more is stored modulo 2^24 and the reader follows / returns "
                            "the wrapped value" % sname, "%s:%s" % (f.file, st[3]))
     ctx.floor("J7.masked_payloads", n7, 8)
+    # J8 NO-BYTE-AS-CHAR: JSON text is UTF-8.  `b as char` maps a byte to the code point of the same number, which is the byte's
+    # character only below 0x80: a byte of a multi-byte character pushed into a String this way becomes a Latin-1 character
+    # (mojibake stored in the JSONB).  In the JSON parser and the JSONB module a u8 cast to char reaches String::push only under
+    # an ASCII test of that byte.
+    n8 = 0
+    pushed = 0
+    for f in sorted(m.fns.values(), key=lambda f: f.id):
+        if not (f.id.startswith("parsing::json::") or f.id.startswith("records::jsonb::")):
+            continue
+        for bb, b in enumerate(f.blocks):
+            for st in b["s"]:
+                if not (st[0] == "=" and st[2][0] == "cast" and not st[1][1] and f.locals[st[1][0]] == "char"):
+                    continue
+                q = operand_place(st[2][2])
+                if q is None or q[1] or f.locals[q[0]] != "u8":
+                    continue
+                n8 += 1
+                dest = st[1][0]
+                sinks = []
+                for c in f.calls:
+                    if c.name.rsplit("::", 1)[-1] in ("push", "insert", "extend_one") and "String" in c.name and len(c.args) > 1:
+                        a = operand_place(c.args[-1])
+                        l = a[0] if a is not None and not a[1] else None
+                        for _ in range(6):
+                            if l is None or l == dest:
+                                break
+                            ds = f.defs().get(l, [])
+                            if len(ds) == 1 and ds[0][0] == "stmt" and ds[0][3][0] == "use" and operand_place(ds[0][3][1]) and not operand_place(ds[0][3][1])[1]:
+                                l = operand_place(ds[0][3][1])[0]
+                            else:
+                                l = None
+                        if l == dest:
+                            sinks.append(c)
+                if not sinks:
+                    continue
+                pushed += 1
+                guarded = False
+                for d in f.dominators().get(bb, ()):
+                    t = f.blocks[d]["t"]
+                    if t[0] != "switch" or t[2] != "bool":
+                        continue
+                    pl = operand_place(t[1])
+                    kk, pp, _ = f.origin(pl[0]) if pl and not pl[1] else (None, None, False)
+                    if kk == "call" and pp is not None and pp.name.rsplit("::", 1)[-1].startswith("is_ascii"):
+                        guarded = True
+                    if kk == "rvalue" and pp[0] == "bin" and pp[1] in ("Lt", "Le", "Gt", "Ge") and (
+                            const_value(f, pp[2]) in (0x7F, 0x80) or const_value(f, pp[3]) in (0x7F, 0x80)):
+                        guarded = True
+                ctx.ob("J8.NO-BYTE-AS-CHAR", "%s@%d" % (f.id.rsplit("::", 1)[-1], pushed), guarded, "byte pushed as char under an ASCII test" if guarded else
+                       "%s pushes `byte as char` into a String without an ASCII test: every byte of a multi-byte UTF-8 character becomes a "
+                       "separate Latin-1 character, and the corrupted text is what JSONB stores" % f.id.rsplit("::", 1)[-1], "%s:%s" % (f.file, st[3]))
+    ctx.floor("J8.u8_as_char_casts_scanned", n8, 1)
+    ctx.ob("J8.NO-BYTE-AS-CHAR", "scan", True, "%d u8-as-char cast(s) in the JSON parser / JSONB module, %d of them pushed into a String" % (n8, pushed), "")
     path_is_stepwise(ctx)
 
 
